@@ -38,7 +38,30 @@ def gen_cases(tier, seed):
     for i in range(40 if tier == "quick" else 1000):
         cases.append({"kind": "flow", "cfg": dzoo.sample_flow_cfg(rng), "seed": env.subseed(seed, "c18f", i),
                       "world": "f32" if i % 2 else "f64", "cost": 3})
+    cases.append({"kind": "suite", "seed": env.subseed(seed, "c18suite"), "world": "f32", "cost": 30})
     return cases
+
+
+def run_suite(case):
+    """the repository's own tests as a workload for the shape contracts"""
+    from vf import suite
+    r = R(case)
+    rec, err = suite.run()
+    if rec is None:
+        r.inconc("suite workload: %s" % err)
+        return r.done()
+    r.ev(rec["shape_checks"])
+    r.count("suite_shape_checks", rec["shape_checks"])
+    r.count("contract_evaluations", rec["shape_checks"])
+    for v in rec["violations"]:
+        if v["kind"] in ("log_prob_shape", "sample_shape"):
+            r.viol("shape_contract", "%s.%s returns a result that breaks the documented shape contract" % (v["cls"].split(".")[-1], v["method"]),
+                   workload="repository test-suite", test=v.get("test"), got=v.get("got"), lead=v.get("lead"), rows=v.get("rows"))
+    for k in sorted(rec["classes"]):
+        if k.rsplit(".", 1)[-1] in ("log_prob", "sample", "sample_and_log_prob"):
+            r.cell("suite", k)
+    r.sample({"suite_workload": {"calls": rec["calls"], "shape_checks": rec["shape_checks"]}})
+    return r.done()
 
 
 def install(counter, expect):
@@ -91,6 +114,8 @@ def uninstall(orig):
 
 
 def run_case(case):
+    if case["kind"] == "suite":
+        return run_suite(case)
     r = R(case)
     kind, cfg, seed = case["kind"], case["cfg"], case["seed"]
     counter, expect = {"n": 0}, {}
